@@ -10,7 +10,7 @@ CONSTANTS
   ListenerValues <- ValuesL
   OutValues <- ValuesAll
   OutKinds <- KindsAll
-  MCScopes <- ScopesAll
+  MCScopes <- ScopesTwo
   Emitting = FALSE
 INVARIANT PContained
 INVARIANT PZeroIff
